@@ -301,6 +301,12 @@ def impl_fixed():
     return optimize_flags.get(opts.OptimizeValue.size) != '-Osize'
 
 
+def impl_dfix():
+    """Does the implementation keep an explicitly empty define value (-DNAME=)?  (finding C16-define-empty-value)"""
+    with Tools() as t:
+        return t.canon(lambda: t.compiler.flags([mk_obj(('define', 'E', ''))])) == ('ok', ['-DE='])
+
+
 def dec_res(r):
     if r[0] == 0:
         return ('ok', [d_str(f) for f in r[1]])
@@ -323,7 +329,7 @@ def finite_opts():
     return [dec_opt(o) for o in raw]
 
 
-def stage_w_tables(rep, rng, n, fixed):
+def stage_w_tables(rep, rng, n, fixed, dfix):
     from bfg9000.file_types import StaticLibrary
     from bfg9000.path import Path
     calls, impl = [], []
@@ -338,7 +344,7 @@ def stage_w_tables(rep, rng, n, fixed):
             for pk in (False, True):
                 mode = 'pkg-config' if pk else 'normal'
                 e = [enc_opt(o) for o in l]
-                calls.append(('opts.cc_flags', [fixed, pk, DEFAULT_DIRS, e]))
+                calls.append(('opts.cc_flags', [fixed, dfix, pk, DEFAULT_DIRS, e]))
                 impl.append(t.canon(lambda: t.compiler.flags([mk_obj(o) for o in l], mode=mode)))
                 calls.append(('opts.ld_flags', [fixed, pk, e]))
                 impl.append(t.canon(lambda: t.linker.flags([mk_obj(o) for o in l], output=out, mode=mode)))
@@ -442,7 +448,7 @@ class _Backend:
         return out
 
 
-def stage_w_merge(rep, rng, n, fixed):
+def stage_w_merge(rep, rng, n, fixed, dfix):
     from bfg9000 import options as opts
     from bfg9000.builtins import compile as bcompile, link as blink
     calls, impl = [], []
@@ -479,7 +485,7 @@ def stage_w_merge(rep, rng, n, fixed):
                         calls.append(('opts.cc_final', [fixed, DEFAULT_DIRS, ['cc'], [t.canon_flag(f) for f in
                                                                                     t.compiler._always_flags],
                                                         envc, genc, ienc, uenc, 'in.c', 'out.o',
-                                                        [] if deps is None else [deps]]))
+                                                        [] if deps is None else [deps], dfix]))
                         impl.append(t.canon(run_cc))
                     else:
                         st = object.__new__(StubL)
@@ -662,11 +668,11 @@ def stage_oracle(rep, rng, cs, thorough, budget=1):
     failures = []
 
     def fail(what, spec, flags, tool, extra=None):
-        failures.append(spec)
         rp = {'option': list(spec), 'flags': flags, 'tool': tool,
               'replay_hint': 'PYTHONPATH=/repo python -c "see harness/c16.py Tools(); compiler.flags([option])"'}
         rp.update(extra or {})
-        rep.fail('%s: option %r -> flags %r, %s' % (what, spec, flags, tool), rp, classes=classify(spec, flags))
+        if rep.fail('%s: option %r -> flags %r, %s' % (what, spec, flags, tool), rp, classes=classify(spec, flags)):
+            failures.append(spec)        # known findings do not count as the failing input of a broken obligation
 
     with Tools(default_dirs=[]) as t:
         def ccf(spec):
@@ -916,18 +922,19 @@ def run(rep):
     rng = random.Random(rep.seed)
     thorough = rep.tier == 'thorough'
     rep.proof_stage(coqchk=thorough)
-    fixed = impl_fixed()
-    rep.stage('variant', optimize_size_table='fixed (-Os)' if fixed else 'as originally written (-Osize)')
+    fixed, dfix = impl_fixed(), impl_dfix()
+    rep.stage('variant', optimize_size_table='fixed (-Os)' if fixed else 'as originally written (-Osize)',
+              define_empty_value='kept (-DNAME=)' if dfix else 'as originally written (-DNAME)')
     n = 1500 if thorough else 250
     dis = []
-    dis += stage_w_tables(rep, rng, n, fixed)
+    dis += stage_w_tables(rep, rng, n, fixed, dfix)
     dis += stage_w_optlist(rep, rng, n, exhaustive=thorough)
-    dis += stage_w_merge(rep, rng, n // 2, fixed)
+    dis += stage_w_merge(rep, rng, n // 2, fixed, dfix)
     root = common.scratch('c16')
     try:
         cs = Compilers(root)
         rbad = stage_r_grammar(rep, rng, cs, thorough)
-        found = stage_oracle(rep, rng, cs, thorough)
+        found = stage_oracle(rep, rng, cs, thorough or bool(dis))   # wider probe set when the tie broke
         rep.stage('compilers', invocations=cs.n)
         if thorough:
             stage_system(rep, rng, cs)
